@@ -254,3 +254,71 @@ func c18EscapeAll(p *core.Program, r *core.Report) {
 		})
 	}
 }
+
+// c18Decimal: the typed getters read decimal numbers. Every strconv.ParseInt/ParseUint of the file
+// configuration names base 10: base 0 lets the text choose (a leading 0 reads as octal, 0x/0b/_ are
+// accepted), so a value the file holds as a decimal number comes out as another number, and texts
+// that are malformed as decimals no longer fall back to the default.
+func c18Decimal(p *core.Program, r *core.Report) {
+	pk := p.Pkg("config/conffile")
+	if pk == nil {
+		return
+	}
+	for _, fi := range p.Funcs {
+		if fi.Pkg != pk || fi.Decl.Body == nil {
+			continue
+		}
+		info := fi.Pkg.TypesInfo
+		n := 0
+		ast.Inspect(fi.Decl.Body, func(m ast.Node) bool {
+			call, ok := m.(*ast.CallExpr)
+			if !ok || len(call.Args) != 3 {
+				return true
+			}
+			fn := calleeFunc(info, call)
+			if fn == nil || fn.Pkg() == nil || fn.Pkg().Path() != "strconv" || (fn.Name() != "ParseInt" && fn.Name() != "ParseUint") {
+				return true
+			}
+			n++
+			c := fmt.Sprintf("%s strconv.%s #%d", core.FuncName(fi.Obj), fn.Name(), n)
+			k, isC := constIntOf(info, call.Args[1])
+			r.Check(isC && k == 10, "C18.getters", c, p.Pos(call.Pos()), "base 10",
+				"the number is not parsed in base 10 ("+types.ExprString(call.Args[1])+"): with base 0 a leading zero means octal and 0x/0b/_ are accepted, so a decimal value in the file is read as another number and malformed decimals no longer fall back to the default")
+			return true
+		})
+	}
+}
+
+// c18SyncWrite: when SetValues returns, the file holds the merged values. The write-back is not
+// handed to a goroutine: no `go` statement in SetValues or the functions of the package it calls.
+func c18SyncWrite(p *core.Program, r *core.Report) {
+	sv := p.Method("config/conffile", "FileConfig", "SetValues")
+	if sv == nil || sv.Decl.Body == nil {
+		return
+	}
+	seen := map[*core.FuncInfo]bool{}
+	bad := ""
+	var scan func(fi *core.FuncInfo, depth int)
+	scan = func(fi *core.FuncInfo, depth int) {
+		if fi == nil || fi.Decl.Body == nil || seen[fi] || depth > 3 {
+			return
+		}
+		seen[fi] = true
+		ast.Inspect(fi.Decl.Body, func(n ast.Node) bool {
+			switch v := n.(type) {
+			case *ast.GoStmt:
+				bad = "starts a goroutine at " + p.Pos(v.Pos())
+			case *ast.CallExpr:
+				if fn := calleeFunc(fi.Pkg.TypesInfo, v); fn != nil {
+					if cf := p.FuncOf(fn); cf != nil && cf.Pkg == sv.Pkg {
+						scan(cf, depth+1)
+					}
+				}
+			}
+			return true
+		})
+	}
+	scan(sv, 0)
+	r.Check(bad == "", "C18.merge", "config/conffile.(*FileConfig).SetValues synchronous", p.Pos(sv.Decl.Pos()), "the write-back has happened when SetValues returns",
+		"SetValues "+bad+": when it returns the file may still hold the old values, and two write-backs started one after the other work from stale snapshots and overwrite each other")
+}
